@@ -12,7 +12,7 @@ from .qast import (NUM, RANK, CMP, LOGIC, expr_type, TypeEnv, number_stmts, sub_
 
 INT_MAX = {'%': 32767, '&': 2147483647}
 
-FEATURES = ('arrays', 'records', 'procs', 'gosub', 'select', 'strings',
+FEATURES = ('deftype', 'arrays', 'records', 'procs', 'gosub', 'select', 'strings',
             'floats', 'longs', 'devices', 'input', 'data', 'onerror', 'goto',
             'multi', 'ifl', 'loops', 'recursion', 'statics', 'shared',
             'consts', 'dynarrays', 'devfuncs')
@@ -1140,6 +1140,10 @@ class Gen:
             main.append(self.print_stmt(sc, 1))
         main.append(self.print_stmt(sc, 2))
         main.append({'k': 'end'})
+        if r.random() < 0.3:
+            # unreachable statements after END (before the first label)
+            self.stmt_budget = 2
+            main += [self.print_stmt(sc, 1)] + ([self.assign(sc)] if r.random() < 0.5 else [])
         for i, lab in enumerate(subs):
             sc.gosubs = subs[:i]     # a routine may only call earlier ones
             self.stmt_budget = r.randint(1, 3)
@@ -1167,7 +1171,14 @@ class Gen:
                 i += n
         for p in self.procs:
             self.proc_body(p)
-        prog = {'types': self.types, 'main': main,
+        deftypes = None
+        if self.p.get('deftype'):
+            deftypes = {}
+            for letter in 'vztpsn':
+                if r.random() < 0.5:
+                    deftypes[letter] = r.choice(self.num_types + (['$'] if self.p['strings'] else []))
+        prog = {'deftypes': deftypes, 'strip_single': bool(self.p.get('deftype')) and r.random() < 0.6,
+                'types': self.types, 'main': main,
                 'procs': [{k: v for k, v in p.items()
                            if k in ('kind', 'name', 'params', 'static', 'body')}
                           for p in self.procs]}
